@@ -1,4 +1,5 @@
 import Wx.Fs.C13
+import Wx.Fs.C13f
 /-! # C13 — Watcher registration converges to the configured path set
 
 > After any sequence of run-time configuration changes (path set, watcher kind, repeated or concurrent changes, changes
@@ -76,5 +77,23 @@ theorem violated_before_repairs :
     (let s0 := { runWorker 16 {} with hooks := [("a", ⟨[a', b'], .native⟩)] }
      let s1 := runWorker 16 (applyCfg s0 ⟨[a'], .native⟩ true)
      wake s1 = false ∧ s1.cfg.paths = [a', b'] ∧ s1.watcher = some (.native, [a'])) := ⟨f8a_witness, f8b_witness⟩
+
+/-- **a path that fails to register does not prevent the others** (one iteration of the repaired worker, any set of
+    failing names, hooks changing the configuration from inside the calls allowed) -/
+theorem failing_path_does_not_prevent_the_others (s : St) (hf : s.fx.f8a = true) (hU : s.failU = []) (hs : Sync' s.priv)
+    (hc : NodupNames s.cfg.paths) (x : WP) (hx : x ∈ s.cfg.paths) (hok : s.failW.contains x.name = false) :
+    ∃ k reg, (iteration s).watcher = some (k, reg) ∧ x ∈ reg := others_are_registered s hf hU hs hc x hx hok
+
+/-- **reported once per attempt** -/
+theorem one_error_per_failing_attempt (s : St) (hf : s.fx.f8a = true) (hU : s.failU = []) (hs : Sync' s.priv)
+    (hc : NodupNames s.cfg.paths) (hne : s.cfg.paths ≠ []) :
+    (iteration s).errs = s.errs +
+      ((s.cfg.paths.filter (fun p => !(ensureWatcher s).localSet.contains p)).filter (fun x => s.failW.contains x.name)).length :=
+  errors_once_per_attempt s hf hU hs hc hne
+
+/-- and the worker's belief stays equal to what is registered (`Sync'`), so the failed path is attempted again on the next change -/
+theorem belief_stays_in_sync (s : St) (hf : s.fx.f8a = true) (hU : s.failU = []) (hs : Sync' s.priv)
+    (hc : NodupNames s.cfg.paths) (hne : s.cfg.paths ≠ []) : Sync' (iteration s).priv :=
+  (iteration_faults s hf hU hs hc hne).1
 
 end Props.C13
